@@ -58,6 +58,9 @@ func pool(thorough bool) []val {
 		{Src: "[]"}, {Src: "[1]"}, {Src: "[1, 2]"}, {Src: "[1.0]"}, {Src: "[[1], [2]]"}, {Src: "[true]"}, {Src: "AB.new([1])"},
 		{Src: "{}"}, {Src: "{a: 1}"}, {Src: "{a: 1, b: 2}"}, {Src: "{a: {b: 1}}"}, {Src: "OB.bear"}, {Src: "OB.bear({b: 2})"}, {Src: "Obj.new({a: 1})"},
 		{Src: "%{}"}, {Src: "%{1: 2}"}, {Src: "%{[1]: 2}"}, {Src: `%{"a": 1}`},
+		// containers built by merging/unpacking rather than written out (equal to a literal of the pool or to each other)
+		{Src: "%{**%{[1]: 2, 'k: 1}, **%{[1]: 3, 'j: 2}}"}, {Src: "%{'k: 1, 'j: 2, [1]: 2}"}, {Src: "%{[1]: 2, [1]: 3}"}, {Src: "%{**%{1: 2}, **%{1: 3}}"},
+		{Src: "{**{a: 1}, **{a: 2, b: 2}}"}, {Src: "[*[1], 2]"}, {Src: "[1] + [2]"},
 		{Src: "(1:3)"}, {Src: "(1:3:1)"}, {Src: "(nil:nil)"}, {Src: "('a:'c)"},
 		{Src: "ff"}, {Src: "{|x| x}"}, {Src: "{|x| x + 1}"}, {Src: "m{|x| x}"},
 		{Src: "1.try"}, {Src: "2.try"}, {Src: `"a".try`}, {Src: "1.try./(0)"}, {Src: "1.try./(0).err"}, {Src: "1.try.nosuch.err"},
@@ -71,6 +74,8 @@ func pool(thorough bool) []val {
 			val{Src: "[nil]"}, val{Src: "[1, [2, [3]]]"}, val{Src: `["a"]`}, val{Src: "[{a: 1}]"}, val{Src: "[%{1: 2}]"}, val{Src: "[(1:3)]"},
 			val{Src: "{b: 2, a: 1}"}, val{Src: "{_p: 1}"}, val{Src: "{a: [1]}"}, val{Src: "OB.bear.bear"},
 			val{Src: "%{2: 1}"}, val{Src: "%{1: 2, 3: 4}"}, val{Src: "%{3: 4, 1: 2}"}, val{Src: "%{{a: 1}: 2}"}, val{Src: "%{nil: 1}"},
+			val{Src: "%{[1]: 2}.digest([[[1], 3], ['j, 2]])"}, val{Src: "%{**%{[1]: 2}, **%{[1]: 3}, **%{[1]: 4}}"}, val{Src: "%{**%{{a: 1}: 2}, **%{{a: 1}: 3}}"}, val{Src: "{a: 1}.bear({b: 2}).bro({b: 2})"},
+			val{Src: "[1, 2][0:1]"}, val{Src: "[[1]] * 2"}, val{Src: `"a" + "b"`, Fam: "str"}, val{Src: "(1:5)[0:2].A"},
 			val{Src: "(3:1:-1)"}, val{Src: "(1:3:2)"}, val{Src: "(1.0:3.0)"},
 			val{Src: "[1].try"}, val{Src: "nil.try"}, val{Src: `"a".try./(0).err`},
 		)
